@@ -450,7 +450,10 @@ class NumpyModel(types.ModuleType):
         if self._real is not None and not self._sym(a):
             return self._real.mean(a, axis=axis, keepdims=keepdims)
         used("mean")
-        return arr.amean(a, axis, keepdims)
+        r = arr.amean(a, axis, keepdims)
+        if STAT_MODE[0]:
+            return _as_stats(r, "mean")
+        return r
 
     def allclose(self, a, b, rtol=1e-5, atol=1e-8):
         used("allclose (uninterpreted predicate, reflexive)")
@@ -492,7 +495,18 @@ class NumpyModel(types.ModuleType):
     def diag(self, a):
         if self._real is not None and not self._sym(a):
             return self._real.diag(a)
-        raise OutOfReach("diag of symbolic")
+        a = lift(a)
+        if a.ndim != 1 or concrete_int(extent(a.dims[0])) is None:
+            raise OutOfReach("diag of a symbolic-length / non 1-D array")
+        used("diag (1-D -> diagonal matrix)")
+        n = concrete_int(extent(a.dims[0]))
+
+        def elem(idx):
+            i, j = idx
+            if arr.is_z3(i) or arr.is_z3(j):
+                raise OutOfReach("diag: symbolic index")
+            return a.elem([i]) if int(i) == int(j) else 0
+        return SArray([Atom(n), Atom(n)], elem, "real")
 
 
 def _free_vars(t):
@@ -575,8 +589,10 @@ class _Linalg:
             return r
         return arr.ew1(root, s, "real")
 
-    def eigh(self, *a, **k):
-        raise OutOfReach("linalg.eigh is external numerics (assumed relational contract only)")
+    def eigh(self, a, *x, **k):
+        if EIGH_CTX[0] is None:
+            raise OutOfReach("linalg.eigh is external numerics (assumed relational contract only)")
+        return eigh_model(a)
 
 
 def pad(a, pad_width, mode):
@@ -1083,21 +1099,124 @@ def loop_shape(fn, expect_assigned):
 # are named by a real symbol; two sums proved equal (up to sign) by the BigSum rules share the symbol
 
 STATS = []
+STAT_MODE = [False]      # when set, jnp.mean returns registered statistics symbols (so that they can enter products)
+EIGH_CTX = [None]        # dict(col, sgn, t, calls=[]) : context of the assumed contract of linalg.eigh (see eigh_model)
+
+
+def _as_stats(r, name):
+    """array whose elements are sums over symbolic ranges -> the same array with each element replaced by its registered
+    statistics symbol (lib.opaque_stat: provably equal / opposite sums get the same / the negated symbol)"""
+    r = lift(r)
+
+    def elem(idx):
+        if any(arr.is_z3(i) for i in _flat_idx(idx)):
+            raise OutOfReach("statistics array indexed symbolically")
+        return _stat_term(r.elem(list(idx)), name)
+    return SArray(list(r.dims), elem, "real")
+
+
+def _flat_idx(idx):
+    for i in idx:
+        if isinstance(i, (tuple, list)):
+            yield from _flat_idx(i)
+        elif isinstance(i, arr.Flat):
+            yield i.t if hasattr(i, "t") else i
+        else:
+            yield i
+
+
+_STAT_CACHE = {}
+
+
+def _stat_term(t, name):
+    from .bigsum import SumExpr
+    if not isinstance(t, SumExpr):
+        return t
+    if not t.terms:
+        return t.plain
+    return arr.t_bin("add", t.plain, opaque_stat(SumExpr(0, t.terms), name))
+
+
+def eigh_model(a):
+    """ASSUMED contract of jnp.linalg.eigh on a (G, D, D) stack of symmetric matrices with concrete G, D:
+    first call per group: eigenvalues LAM_j and an eigenvector matrix U (fresh symbols: any reals).
+    a later call whose argument is PROVABLY g C g^T for the recorded argument C and the signed permutation g of the
+    context returns the same eigenvalues and U' = g U diag(t), t_j = +-1 (eigenvectors of a simple spectrum are determined
+    up to sign; the property module enumerates every sign vector t).  Any other argument: fresh unrelated symbols.
+    For repeated eigenvalues U' = g U R with R orthogonal inside the eigenspaces; the conclusions drawn here (they
+    only concern U f(LAM) U^T) carry over -- this generalisation is part of the assumption."""
+    used("linalg.eigh (assumed: eigen-decomposition of g C g^T is (LAM, g U diag(+-1)); simple spectrum)")
+    ctx = EIGH_CTX[0]
+    a = lift(a)
+    if a.ndim != 3:
+        raise OutOfReach("eigh: expected a (G, D, D) stack")
+    G, D = concrete_int(extent(a.dims[0])), concrete_int(extent(a.dims[1]))
+    if G is None or D is None or concrete_int(extent(a.dims[2])) != D:
+        raise OutOfReach("eigh: symbolic matrix size")
+    C = [[[arr.t_z3(_stat_term(a.elem([gi, i, j]), "cov"), True) for j in range(D)] for i in range(D)] for gi in range(G)]
+    col, sgn, t = ctx["col"], ctx["sgn"], ctx["t"]
+    lam, U = [], []
+    for gi in range(G):
+        prev = ctx["calls"].get(gi)
+        rel = False
+        if prev is not None:
+            C0, lam0, U0 = prev
+            rel = all(sym.valid(C[gi][i][j] == sgn[i] * sgn[j] * C0[col[i]][col[j]]) for i in range(D) for j in range(D))
+        if rel:
+            ctx["related"] = ctx.get("related", 0) + 1
+            lam.append(list(lam0))
+            U.append([[sgn[i] * U0[col[i]][j] * t[j] for j in range(D)] for i in range(D)])
+        else:
+            l_ = [z3.Real(sym.fresh_name(f"LAM{gi}_{j}")) for j in range(D)]
+            u_ = [[z3.Real(sym.fresh_name(f"EV{gi}_{i}{j}")) for j in range(D)] for i in range(D)]
+            if ctx.get("psd"):
+                # the argument is a Gram matrix X^T X / n (checked by the caller of this mode): eigenvalues >= 0
+                for v in l_:
+                    sym.CTX.path.append(v >= 0)
+            if prev is None:
+                ctx["calls"][gi] = (C[gi], l_, u_)
+            lam.append(l_)
+            U.append(u_)
+
+    def el(idx):
+        idx = [arr._num_index(i) for i in idx]
+        if any(arr.is_z3(i) for i in idx):
+            raise OutOfReach("eigh result indexed symbolically")
+        return lam[int(idx[0])][int(idx[1])]
+
+    def eu(idx):
+        idx = [arr._num_index(i) for i in idx]
+        if any(arr.is_z3(i) for i in idx):
+            raise OutOfReach("eigh result indexed symbolically")
+        return U[int(idx[0])][int(idx[1])][int(idx[2])]
+    return SArray([Atom(G), Atom(D)], el, "real"), SArray([Atom(G), Atom(D), Atom(D)], eu, "real")
 
 
 def opaque_stat(S, name="stat"):
     from .bigsum import SumExpr, sum_equal
     if not isinstance(S, SumExpr):
         return S
-    for (sy, S0) in STATS:
-        st, _, _ = sum_equal(S, S0)
-        if st == "proved":
-            return sy
-        st, _, _ = sum_equal(S, S0.scale(-1))
-        if st == "proved":
-            return -sy
+    from .bigsum import numeric_value
+    hy = sym.CTX.all_hyps()
+    v = numeric_value(S, hy)
+    for (sy, S0, v0) in STATS:
+        # numeric filter (sound and complete as a filter: provably equal sums have equal values in a world that satisfies
+        # the hypotheses); the decision itself is sum_equal's proof
+        if v is not None and v0 is not None:
+            tol = 1e-7 * (1 + abs(v) + abs(v0))
+            same, opp = abs(v - v0) <= tol, abs(v + v0) <= tol
+        else:
+            same = opp = True
+        if same:
+            st, _, _ = sum_equal(S, S0)
+            if st == "proved":
+                return sy
+        if opp:
+            st, _, _ = sum_equal(S, S0.scale(-1))
+            if st == "proved":
+                return -sy
     sy = z3.Real(sym.fresh_name(name))
-    STATS.append((sy, S))
+    STATS.append((sy, S, v))
     return sy
 
 
